@@ -35,7 +35,7 @@ def run(ctx):
     for b in rbad:
         if b["reason"] in ("panic", "error-laws", "hang", "crash"):
             d = pc.sig_dict(b)
-            sig = {"kind": "real", "reason": b["reason"], "acc": d.get("where", "").split("(")[0], "fn": d.get("fn", ""), "text": d.get("text", "")}
+            sig = {"kind": "real", "reason": b["reason"], "acc": d.get("where", "").split("(")[0], "fn": d.get("fn", ""), "file": d.get("file", ""), "text": d.get("text", "")}
             if b["reason"] == "error-laws":
                 sig = {"kind": "real", "reason": "error-laws", "first": b["event"].get("first"),
                        "shape": "failIdx=%s failPos=%s nl=%s" % (b["event"].get("failIdx"), b["event"].get("failPos"), b["event"].get("nl"))}
